@@ -3,7 +3,7 @@
 // Decided by bounded exhaustive enumeration against /repo/semantic (Parse + Version.CompareStr),
 // for every ecosystem name accepted by semantic.Parse (16 names, 10 comparators):
 //
-//	P1 totality + reflexivity: every string over a 13-symbol raw alphabet (digits . - + ~ : a _ space,
+//	P1 totality + reflexivity: every string over a 14-symbol raw alphabet (digits . - + ~ : a _ space,
 //	   a 2-byte rune, a lone 0xff byte) up to length 4 (quick) / 5 (thorough), and every concatenation
 //	   of <=3 / <=4 tokens of a per-ecosystem token alphabet (~35 tokens: numbers incl. 01 and a 20-digit
 //	   one, separators, qualifiers): Parse and CompareStr never panic; if Parse(s) succeeds then
@@ -255,6 +255,21 @@ func (x *ctx) selfCheck(g *group, name, s string) bool {
 		x.col.add(g.id+":reflexivity-error", name, "self", fmt.Sprintf("%s: Parse(%s) succeeds but comparing it with itself fails: %v", name, q(s), cerr), s)
 	case c != 0:
 		x.col.add(g.id+":reflexivity", name, "self", fmt.Sprintf("%s: cmp(%s, same) = %d, want 0", name, q(s), c), s)
+	}
+	// totality against other strings: an accepted version compared with a few ordinary versions, in
+	// both directions, must not panic either (an error is fine)
+	for _, probe := range []string{"1.2.3", "0", "1.0-1"} {
+		if _, _, p, stack := compare(v, probe); p != nil {
+			x.col.add(panicKey(g, p, stack, s), name, "self", fmt.Sprintf("%s: Parse(%s).CompareStr(%s) panics: %v", name, q(s), q(probe), p), s)
+			break
+		}
+		if pv, perr, pp, _ := parse(name, probe); pp == nil && perr == nil && pv != nil {
+			if _, _, p, stack := compare(pv, s); p != nil {
+				x.col.add(panicKey(g, p, stack, s), name, "self", fmt.Sprintf("%s: Parse(%s).CompareStr(%s) panics: %v", name, q(probe), q(s), p), s)
+				break
+			}
+		}
+		x.r.Evals.Add(2)
 	}
 	return true
 }
